@@ -25,7 +25,10 @@ RULE = (
     "orientation) is stretched x k (1, 50] along each of its three geometric directions. Non-trivial: renumber = some "
     "cell non-identically renumbered and centre-cell direction lengths differing by > 1.5; rigid = rotation angle "
     "> 0.01 or non-zero shift; scale = asserted pair (smallest edge x smaller scale >= 1) with |ln s| > 0.05; stretch = "
-    "k >= 1.5. distinct = distinct generated case."
+    "k >= 1.5. Live: a 2-4 cell grid with 0-2 Translation/Symmetry links is evaluated, then moved 1-3 times through "
+    "grid.update(); after each move the live per-cell and grid values must equal those of a fresh grid on the same "
+    "coordinates and of its rigidly moved copy; non-trivial = a leader was moved whose follower belongs to a cell that "
+    "does not contain the leader. distinct = distinct generated case."
 )
 ASSUMPTIONS = [
     "renumbering / rigid motion change the value only by rounding: tol = 1e-9*(1+|T|/l_min)*|q| + 1e-5*n_cells*"
@@ -39,6 +42,10 @@ ASSUMPTIONS = [
     "guard'), otherwise the case is only counted",
     "stretch: q(box) >= q(cube) - (rounding tol + 2*B(cube)); the three stretched boxes agree within the rounding tol",
     "an exception from quality() on a valid convex cell is a violation (the value is then not 'unchanged')",
+    "live cells: moves are at most 0.15 of the smallest nominal edge per coordinate, always from the original place; a "
+    "step after which a corner Jacobian drops below 0.2 (quad corner sine < 0.35) ends the case unjudged; links are "
+    "independent (no follower that is also a leader or a follower of another link); SymmetryLink planes are the "
+    "perpendicular bisector of leader-follower so the follower is on a grid point",
 ]
 
 VSMALL = 1e-6
@@ -54,15 +61,18 @@ QUAD_EDGES = [(0, 1), (1, 2), (2, 3), (3, 0)]
 # generators
 
 
-def _nodes(dim: int, sides):
-    """lattice nodes (integer tuples) of the centre cell [1,2]^dim and its neighbours, centre cell's first"""
+def _nodes(dim: int, sides, cells=None):
+    """lattice nodes (integer tuples) of the centre cell [1,2]^dim and its neighbours, centre cell's first
+    (or of an explicit list of cell origins)"""
     canon = CANON if dim == 3 else QCANON
-    cells = [tuple([1] * dim)]
-    for s in sides:
-        d, sg = (SIDES3 if dim == 3 else SIDES2)[s]
-        o = [1] * dim
-        o[d] += sg
-        cells.append(tuple(o))
+    if cells is None:
+        cells = [tuple([1] * dim)]
+        for s in sides:
+            d, sg = (SIDES3 if dim == 3 else SIDES2)[s]
+            o = [1] * dim
+            o[d] += sg
+            cells.append(tuple(o))
+    cells = [tuple(o) for o in cells]
     nodes: list = []
     for o in cells:
         for c in canon:
@@ -133,6 +143,45 @@ def scale_case(draw, dim: int):
     return case
 
 
+LAYOUTS = {
+    3: [[[0, 0, 0], [1, 0, 0]], [[0, 0, 0], [1, 0, 0], [2, 0, 0]], [[0, 0, 0], [0, 0, 1], [0, 0, 2]],
+        [[0, 0, 0], [1, 0, 0], [2, 0, 0], [3, 0, 0]], [[0, 0, 0], [1, 0, 0], [0, 1, 0]],
+        [[0, 0, 0], [0, 1, 0], [0, 1, 1]], [[0, 0, 0], [1, 0, 0], [0, 1, 0], [1, 1, 0]]],
+    2: [[[0, 0], [1, 0]], [[0, 0], [1, 0], [2, 0]], [[0, 0], [0, 1], [0, 2]], [[0, 0], [1, 0], [2, 0], [3, 0]],
+        [[0, 0], [1, 0], [0, 1]], [[0, 0], [1, 0], [0, 1], [1, 1]]],
+}
+
+
+@st.composite
+def live_case(draw, dim: int):
+    """2-4 cells; 0-2 links (leader, follower by node selector); 1-3 moves through grid.update"""
+    cells = draw(st.sampled_from(LAYOUTS[dim]))
+    _, nodes = _nodes(dim, [], cells)
+    base = 10.0 ** draw(st.floats(0.0, 1.5))
+    size = [base * 10.0 ** draw(st.sampled_from([0.0, 0.0, 0.25, 0.6])) for _ in range(dim)]
+    amp = draw(st.sampled_from([0.0, 0.04, 0.08]))
+    case = {
+        "dim": dim, "sides": [], "cells": cells, "size": size,
+        "shear": [draw(st.floats(-0.4, 0.4)) for _ in range(3 if dim == 3 else 1)],
+        "amp": amp, "jit": [draw(_floats11) for _ in range(dim * len(nodes))] if amp > 0 else [],
+        "rots": [draw(st.integers(0, 23 if dim == 3 else 3)) for _ in cells],
+        "links": [
+            {"type": draw(st.sampled_from(["translation", "symmetry"])), "leader": draw(st.integers(0, 63)),
+             "follower": draw(st.integers(0, 63)), "far": draw(st.booleans())}
+            for _ in range(draw(st.integers(0, 2)))
+        ],
+        "motion": draw(_rotation()), "shift": [draw(_floats11) * 3 for _ in range(3)],
+    }
+    case["moves"] = [
+        {"node": draw(st.integers(0, 63)), "leader_of": draw(st.one_of(st.none(), st.integers(0, 1))),
+         "offset": [0.15 * draw(_floats11) for _ in range(dim)]}
+        for _ in range(draw(st.integers(1, 3)))
+    ]
+    if dim == 2:
+        case["tilt"] = draw(st.one_of(st.none(), _rotation()))
+    return case
+
+
 @st.composite
 def stretch_case(draw):
     return {
@@ -150,7 +199,7 @@ def stretch_case(draw):
 def build(case):
     """-> (points (n,3), list of cells as node-index lists in canonical numbering)"""
     dim = case["dim"]
-    cells, nodes = _nodes(dim, case["sides"])
+    cells, nodes = _nodes(dim, case["sides"], case.get("cells"))
     size = case["size"]
     if dim == 3:
         sxy, sxz, syz = case["shear"]
@@ -368,6 +417,104 @@ def check_scale(case, ctx: Ctx) -> None:
     ctx.nt(abs(math.log(s)) > 0.05)
 
 
+def _cells_valid(points, addr, dim) -> bool:
+    if dim == 3:
+        return all(hex_corner_jacobians(points[a]).min() >= 0.2 for a in addr)
+    for a in addr:
+        p = points[a]
+        n = np.cross(p[1] - p[0], p[3] - p[0])
+        n = n / np.linalg.norm(n)
+        for i in range(4):
+            u, v = p[(i + 1) % 4] - p[i], p[(i - 1) % 4] - p[i]
+            if np.cross(u, v) @ n / (np.linalg.norm(u) * np.linalg.norm(v)) < 0.35:
+                return False
+    return True
+
+
+def check_live(case, ctx: Ctx) -> None:
+    """a grid that has been evaluated and then moved through grid.update() reports, for every cell, the value a
+    freshly built grid gives for the very same coordinates (and for a rigidly moved copy of them)"""
+    from classy_blocks.optimize.links import SymmetryLink, TranslationLink
+
+    dim = case["dim"]
+    points, addr = build(case)
+    addr = renumbered(addr, case["rots"], dim)
+    n = len(points)
+    facts = {"dim": "hex" if dim == 3 else "quad", "cells": len(addr), "links": [], "step": 0}
+    users = [{ci for ci, a in enumerate(addr) if p in a} for p in range(n)]
+    tilt = np.eye(3)
+    if dim == 2 and case.get("tilt"):
+        tilt = rodrigues(case["tilt"]["axis"], case["tilt"]["angle"])
+    R = rodrigues(case["motion"]["axis"], case["motion"]["angle"])
+    shift = np.array(case["shift"]) * min(case["size"])
+    l_min, _, _ = shape_numbers(points, addr, dim)
+    reach = float(np.abs(points).max() + np.linalg.norm(shift)) / l_min
+
+    grid_class = HexGrid if dim == 3 else QuadGrid
+    leaders = []
+    far_link = False
+    try:
+        grid = grid_class(points.copy(), [list(a) for a in addr])
+        for spec in case["links"]:
+            lead = spec["leader"] % n
+            others = [p for p in range(n) if p != lead]
+            far = [p for p in others if users[p] - users[lead]]
+            pool = far if (spec["far"] and far) else others
+            foll = pool[spec["follower"] % len(pool)]
+            if any(foll == f or foll == ld for ld, f in leaders) or any(lead == f for _, f in leaders):
+                continue  # keep links independent of each other (no chains, one leader per follower)
+            lp, fp = points[lead].copy(), points[foll].copy()
+            if spec["type"] == "translation":
+                link = TranslationLink(lp, fp)
+            else:
+                link = SymmetryLink(lp, fp, fp - lp, 0.5 * (lp + fp))
+            grid.add_link(link)
+            leaders.append((lead, foll))
+            facts["links"].append(spec["type"])
+            far_link = far_link or bool(users[foll] - users[lead])
+    except Exception as ex:
+        raise Violation("grid-setup-raises", f"{type(ex).__name__}: {ex}", **facts) from None
+
+    def compare_with_fresh(step):
+        facts["step"] = step
+        live_q, live_e = None, None
+        try:
+            live_e = [float(c.quality) for c in grid.cells]
+            live_q = float(grid.quality)
+        except Exception as ex:
+            raise Violation("quality-raises", f"live grid: {type(ex).__name__}: {ex}", **facts) from None
+        now = np.array(grid.points, dtype=float)
+        q1, e1 = evaluate(now, addr, dim, facts)
+        q2, e2 = evaluate(now @ R.T + shift, addr, dim, facts)
+        tol = tol_round(max(abs(q1), abs(q2), abs(live_q)), len(addr), reach)
+        compare("live-grid-differs-from-fresh", live_q, live_e, q1, e1, tol, {**facts, "against": "fresh"}, ctx)
+        compare("live-grid-differs-from-fresh", live_q, live_e, q2, e2, tol, {**facts, "against": "fresh-moved"}, ctx)
+
+    compare_with_fresh(0)  # also fills whatever the library caches
+    moved_far_leader = False
+    for step, mv in enumerate(case["moves"], start=1):
+        node = mv["node"] % n
+        if mv["leader_of"] is not None and leaders:
+            node = leaders[mv["leader_of"] % len(leaders)][0]
+        off = np.zeros(3)
+        off[:dim] = np.array(mv["offset"]) * min(case["size"])
+        target = points[node] + tilt @ off  # always relative to the original place: moves do not accumulate
+        try:
+            grid.update(node, target)
+        except Exception as ex:
+            raise Violation("update-raises", f"grid.update: {type(ex).__name__}: {ex}", **facts) from None
+        if not _cells_valid(np.array(grid.points, dtype=float), addr, dim):
+            ctx.label("left-the-domain(stopped)")
+            break
+        compare_with_fresh(step)
+        if any(node == ld and users[f] - users[ld] for ld, f in leaders) and np.any(off != 0):
+            moved_far_leader = True
+    ctx.label(f"links={len(leaders)}", f"cells={len(addr)}", f"moves={len(case['moves'])}")
+    ctx.label("far-follower-link" if far_link else "no-far-follower-link")
+    ctx.label("moved-leader-of-far-follower" if moved_far_leader else "no-far-leader-move")
+    ctx.nt(moved_far_leader)
+
+
 def check_stretch(case, ctx: Ctx) -> None:
     a, k = case["side"], case["k"]
     cube = np.array(CANON, dtype=float) * a
@@ -413,6 +560,11 @@ CELLS = [
     Cell("C14/hex/stretch", stretch_case(), check_stretch, 500, 20000,
          "cube x k along each geometric direction: never lower than the cube, equal for the three directions",
          fixed_cases=_STRETCH_FIXED),
+    Cell("C14/hex/live", live_case(3), check_live, 300, 12000,
+         "2-4 hexahedra, 0-2 Translation/Symmetry links, quality evaluated, then 1-3 grid.update() moves: live values = "
+         "fresh grid on the same coordinates = rigidly moved fresh grid"),
+    Cell("C14/quad/live", live_case(2), check_live, 300, 12000,
+         "the same for 2-4 planar quadrilaterals (moves stay in the plane)"),
     Cell("C14/quad/renumber", renumber_case(2), check_renumber, 800, 30000,
          "two of the 4 cyclic numberings per quadrilateral, 0-2 neighbours, plane optionally tilted"),
     Cell("C14/quad/rigid", rigid_case(2), check_rigid, 800, 30000,
